@@ -57,6 +57,7 @@ type c01Deployment struct {
 	FirstToPub  [][]byte // first record forwarded to the public-name server
 	BackendSt   []tls.ConnectionState
 	BackendErrs []error
+	RelayBuf   int // size of the backend->client relay buffer (0: 32 KiB)
 }
 
 // serve handles one client connection the way a split-mode front does.
@@ -138,7 +139,12 @@ func (d *c01Deployment) serve(front net.Conn, done chan<- struct{}) {
 	}()
 	go func() { // backend -> client
 		defer wg.Done()
-		buf := make([]byte, 1<<15)
+		// one buffer reused for every read, of a size that may split the backend's records
+		// across Write calls, as a relay in front of a remote backend does
+		buf := make([]byte, max(d.RelayBuf, 1))
+		if d.RelayBuf == 0 {
+			buf = make([]byte, 1<<15)
+		}
 		for {
 			n, err := b1.Read(buf)
 			if n > 0 {
@@ -216,8 +222,8 @@ func (d *c01Deployment) connect(cfg *tls.Config, chunk int, payload []byte) c01R
 
 func TestC01(t *testing.T) {
 	rec := ev.Get("C01")
-	rec.Rule("full deployments with the real crypto/tls stack on both ends: client tls.Config (server name 1..253 bytes, 0..4 ALPN protocols, curve preference lists over {X25519, P-256, P-384, X25519MLKEM768} - hence key_share sizes and real HelloRetryRequests -, cold or warm session cache, optional client certificate with a 0.5..40 KB chain), backend tls.Config without ECH keys (curves, ALPN, client auth, certificate chain 0.5..40 KB, session tickets), client-facing key set of 1..3 keys, the three AEAD suites, fresh or stale client config, client writes chunked 1..4096 bytes or whole. Oracle: the two crypto/tls endpoints - fresh: handshake completes, client ECHAccepted, echo both ways, backend ServerName/ALPN and Conn.ServerName/ALPNProtos equal the client's inner values; stale: hello reaches the public-name server untouched (that server has drawn curve preferences too, so the rejection handshake may itself go through a HelloRetryRequest), client gets ECHRejectionError with the server's retry configs and a second connection with them is accepted. distinct = configuration tuple; non-trivial = anything but X25519 / no ALPN / cold / single key")
-	rec.Mandatory("config_id_collision", "hrr", "resumed", "pq_share", "name_ge200", "server_chain_ge16k", "client_chain_ge16k", "aead1", "aead2", "aead3", "stale", "stale_hrr", "chunked", "client_auth")
+	rec.Rule("full deployments with the real crypto/tls stack on both ends: client tls.Config (server name 1..253 bytes, 0..4 ALPN protocols, curve preference lists over {X25519, P-256, P-384, X25519MLKEM768} - hence key_share sizes and real HelloRetryRequests -, cold or warm session cache, optional client certificate with a 0.5..40 KB chain), backend tls.Config without ECH keys (curves, ALPN, client auth, certificate chain 0.5..40 KB, session tickets), client-facing key set of 1..3 keys, the three AEAD suites, fresh or stale client config, client writes chunked 1..4096 bytes or whole, backend output relayed to the Conn through a reused buffer of 1..4096 bytes or 32 KiB. Oracle: the two crypto/tls endpoints - fresh: handshake completes, client ECHAccepted, echo both ways, backend ServerName/ALPN and Conn.ServerName/ALPNProtos equal the client's inner values; stale: hello reaches the public-name server untouched (that server has drawn curve preferences too, so the rejection handshake may itself go through a HelloRetryRequest), client gets ECHRejectionError with the server's retry configs and a second connection with them is accepted. distinct = configuration tuple; non-trivial = anything but X25519 / no ALPN / cold / single key")
+	rec.Mandatory("config_id_collision", "hrr", "resumed", "pq_share", "name_ge200", "server_chain_ge16k", "client_chain_ge16k", "aead1", "aead2", "aead3", "stale", "stale_hrr", "chunked", "client_auth", "backend_records_split_by_relay")
 	rapid.Check(t, func(t *rapid.T) {
 		var cl []string
 		serverName := hello.TwoLabels(hello.GenName(t, "server_name", 253))
@@ -300,6 +306,10 @@ func TestC01(t *testing.T) {
 			}
 		}
 		d := &c01Deployment{Keys: echKeys(keys...), BackendCfg: backend, PublicName: publicName}
+		if rapid.IntRange(0, 2).Draw(t, "small_relay_buffer") == 0 {
+			d.RelayBuf = []int{1, 3, 7, 100, 517, 1500, 4096}[rapid.IntRange(0, 6).Draw(t, "relay_buf")]
+			cl = append(cl, "backend_records_split_by_relay")
+		}
 		var tlsKeys []tls.EncryptedClientHelloKey
 		for _, k := range keys {
 			tlsKeys = append(tlsKeys, tls.EncryptedClientHelloKey{Config: k.Config, PrivateKey: k.Priv.Bytes(), SendAsRetry: true})
